@@ -192,3 +192,16 @@ func init() {
 		return out
 	})
 }
+
+// ---- outgoing messages (C14) ---------------------------------------------------------------------
+func init() {
+	regInvoke("github.com/tokenized/spynode/internal/state.MessageTransmitter.TransmitMessage", "hands a message to the connection's outgoing queue: a ghost flag records that this message object was transmitted; result unconstrained (false = node stopping)", func(ms *ModSet, c *ssa.CallCommon) {
+		ms.add(KeyInfo{Key: "GH!transmitted", Ghost: "(Array Int Bool)"})
+	}, func(fr *Frame, st *State, c *ssa.CallCommon, args []Val, res ssa.Value) Val {
+		v := fr.v
+		k := v.ghostKey("transmitted", "(Array Int Bool)")
+		msg := fr.term(st, c.Args[0])
+		v.setHeap(st, k, sto(v.heap(st, k), "(i.val "+msg+")", "true"))
+		return fr.freshResult(st, c, res)
+	})
+}
